@@ -85,7 +85,11 @@ def generate(config):
     crate_dir = crate_dir or REPO
     ensure_driver()
     key = tree_hash(crate_dir, extra=(config,))
-    out_dir = os.path.join(BUILD, "facts", f"{config}-{key}")
+    # a scratch copy (ESPADA_REPO, dev-time checker validation) keeps its own fact directories, so that parallel
+    # scratch runs do not prune each other's (or /repo's) facts
+    tag = config if crate_dir == "/repo" or crate_dir.startswith(VERIF) else \
+        f"scratch{hashlib.sha1(crate_dir.encode()).hexdigest()[:8]}-{config}"
+    out_dir = os.path.join(BUILD, "facts", f"{tag}-{key}")
     done = os.path.join(out_dir, "DONE")
     os.makedirs(os.path.join(BUILD, "facts"), exist_ok=True)
     lock_path = os.path.join(BUILD, f"lock-{config}")
@@ -94,7 +98,7 @@ def generate(config):
         if os.path.exists(done):
             return out_dir
         # drop stale fact dirs of this config
-        for old in glob.glob(os.path.join(BUILD, "facts", f"{config}-*")):
+        for old in glob.glob(os.path.join(BUILD, "facts", f"{tag}-*")):
             shutil.rmtree(old, ignore_errors=True)
         os.makedirs(out_dir, exist_ok=True)
         target = os.path.join(BUILD, f"target-{config}")
@@ -257,7 +261,12 @@ def load(config="lib"):
             docs.append(json.load(fh))
     if not docs:
         raise Broken("no fact documents")
-    return Facts(docs, config, fact_dir)
+    F = Facts(docs, config, fact_dir)
+    F.inlined = {}
+    if not os.environ.get("ESPADA_NO_INLINE"):
+        from . import inline
+        F.inlined = inline.normalise(F)
+    return F
 
 
 if __name__ == "__main__":
